@@ -11,6 +11,7 @@ import (
 
 	"github.com/smart-core-os/sc-api/go/traits"
 	"github.com/smart-core-os/sc-api/go/types"
+	"github.com/smart-core-os/sc-golang/pkg/masks"
 	"github.com/smart-core-os/sc-golang/pkg/resource"
 )
 
@@ -44,7 +45,8 @@ func (m *ModelServer) ListConsumables(_ context.Context, request *traits.ListCon
 	lastKey := pageToken.GetLastResourceName() // the key() of the last item we sent
 	pageSize := capPageSize(int(request.GetPageSize()))
 
-	sortedItems := m.model.ListConsumables(resource.WithReadMask(request.ReadMask))
+	// page over the unfiltered listing: the read mask may leave out the field the page token is made of
+	sortedItems := m.model.ListConsumables()
 	nextIndex := 0
 	if lastKey != "" {
 		nextIndex = sort.Search(len(sortedItems), func(i int) bool {
@@ -71,6 +73,13 @@ func (m *ModelServer) ListConsumables(_ context.Context, request *traits.ListCon
 		return nil, err
 	}
 	result.Consumables = sortedItems[nextIndex:upperBound]
+
+	// apply read mask
+	mask := masks.NewResponseFilter(masks.WithFieldMask(request.ReadMask))
+	for i, item := range result.Consumables {
+		result.Consumables[i] = mask.FilterClone(item).(*traits.Consumable)
+	}
+
 	return result, nil
 }
 
@@ -125,7 +134,8 @@ func (m *ModelServer) ListInventory(_ context.Context, request *traits.ListInven
 	lastKey := pageToken.GetLastResourceName() // the key() of the last item we sent
 	pageSize := capPageSize(int(request.GetPageSize()))
 
-	sortedItems := m.model.ListInventory(resource.WithReadMask(request.ReadMask))
+	// page over the unfiltered listing: the read mask may leave out the field the page token is made of
+	sortedItems := m.model.ListInventory()
 	nextIndex := 0
 	if lastKey != "" {
 		nextIndex = sort.Search(len(sortedItems), func(i int) bool {
@@ -152,6 +162,13 @@ func (m *ModelServer) ListInventory(_ context.Context, request *traits.ListInven
 		return nil, err
 	}
 	result.Inventory = sortedItems[nextIndex:upperBound]
+
+	// apply read mask
+	mask := masks.NewResponseFilter(masks.WithFieldMask(request.ReadMask))
+	for i, item := range result.Inventory {
+		result.Inventory[i] = mask.FilterClone(item).(*traits.Consumable_Stock)
+	}
+
 	return result, nil
 }
 
